@@ -177,7 +177,8 @@ func (c *Ctx) provID(short string) int {
 // tagProv marks the scalar leaves of a call result with the callee's provenance id
 func (c *Ctx) tagProv(v *Val, tag string) *Val {
 	switch v.K {
-	case VScalar:
+	case VScalar, VSlice:
+		// (a slice returned by a call carries the provenance on its header value)
 		if v.Prov == tag {
 			return v
 		}
